@@ -14,7 +14,7 @@ Definition xs (s : int) : int :=
 
 Definition unit_of (s : int) : float := (PrimFloat.of_uint63 (s >> 10) * 0x1p-53)%float.
 
-Record gen := mkGen { g_gen : int; g_seed : int; g_len : N; g_a : float; g_b : float; g_every : N; g_mode : bool }.
+Record gen := mkGen { g_gen : int; g_seed : int; g_len : N; g_a : float; g_b : float; g_every : N; g_mode : int }.   (* mode: 0 scalar, 1 bar, 2 one-price bar *)
 Record gs := mkGs { s_s : int; s_x : float; s_k : int }.
 
 Definition g_init (g : gen) : gs := mkGs (xs (xs (g_seed g lor 1))) (g_a g) 0.
@@ -51,7 +51,7 @@ Definition g_bar (g : gen) (st : gs) : gs * Bar float :=
   let c0 := (l + (h - l) * u3)%float in
   let c := if (h <? c0)%float then h else c0 in
   let v := if ((s4 >> 5) mod 8 =? 0) then 0%float else (1000 * u4)%float in
-  (mkGs s4 (s_x st) (s_k st), mkBar x h l c v).
+  (mkGs s4 (s_x st) (s_k st), if g_mode g =? 2 then mkBar x x x x v else mkBar x h l c v).
 
 (* hash of a float: (mantissa in [2^52,2^53), exponent, class), as in gen.rs:decomp *)
 Definition K : int := 0x100000001B3.
@@ -82,7 +82,7 @@ Fixpoint g_run (n : nat) (g : gen) (st : gs) (s : @St float) (k : N) (cd : nat) 
   match n with
   | O => (h, rev acc, true)
   | S n =>
-      let '(st', inp) := if g_mode g then let '(st', b) := g_bar g st in (st', GB b)
+      let '(st', inp) := if negb (g_mode g =? 0) then let '(st', b) := g_bar g st in (st', GB b)
                          else let '(st', x) := g_step g st in (st', GX x) in
       let r := match inp with
                | GX x => match next FOps s x with Some r => r | None => Panic end
@@ -100,16 +100,48 @@ Fixpoint g_run (n : nat) (g : gen) (st : gs) (s : @St float) (k : N) (cd : nat) 
       end
   end.
 
-(* a fresh exact (rational) instance fed the window: the from-scratch value of the current window *)
-Definition exact_on_window (k : Kind) (p : @Params float) (win : list ginput) : list XQ :=
+(* a fresh exact (rational) instance fed the window: the from-scratch value of the current window, with its final state *)
+Definition exact_on_window (k : Kind) (p : @Params float) (win : list ginput) : option (@St XQ) * list XQ :=
   match new XQOps k (mkParams (p1 p) (p2 p) (p3 p) (f2xq (pm p))) with
   | Ok s0 =>
-      let '(_, out) := fold_left (fun '(s, out) inp =>
+      let '(s, out) := fold_left (fun '(s, out) inp =>
            let r := match inp with
                     | GX x => match next XQOps s (f2xq x) with Some r => r | None => Panic end
                     | GB b => next_bar XQOps s (qbar b) end in
-           match r with Ok (s', o) => (s', o) | _ => (s, out) end) (rev win) (s0, []) in out
-  | _ => [] end.
+           match r with Ok (s', o) => (s', o) | _ => (s, out) end) (rev win) (s0, []) in (Some s, out)
+  | _ => (None, []) end.
+
+(* tolerance of C13: absolute tau*maxmag for the window statistics; for the two ratio indicators the property's
+   own conditioning rule: MFI within 100*tau*c with c = (largest single-bar money flow) / (window total flow), claimed for
+   c <= 1000; CCI within tau*c/0.015 with c = maxmag / (0.015*MAD), claimed for c <= 1e6; degenerate windows are C08's *)
+Definition tol_gen (vmax : Q) (k : Kind) (mult : XQ) (t : N) (M : Q) (impl exact : list XQ)
+           (st : option (@St XQ)) (win : list ginput) : bool :=
+  match k, st, impl, exact with
+  | KMfi, Some (SMfi s), [i], [e] =>
+      match mfi_pos s, mfi_neg s with
+      | QFin a, QFin b =>
+          let total := (a + b)%Q in
+          if Qle_bool total 0%Q then true else
+          let c := ((M * vmax) / total)%Q in
+          if Qle_bool c 1000%Q then within i e (100 * tau t * c)%Q else true
+      | _, _ => true end
+  | KCci, Some _, [i], [e] =>
+      let tps := map (fun inp => match inp with
+                                 | GB b => xq_div (xq_add (xq_add (f2xq (b_close b)) (f2xq (b_high b))) (f2xq (b_low b))) (QFin 3)
+                                 | GX x => f2xq x end) (rev win) in
+      match new XQOps KMad (mkParams (N.of_nat (Nat.pred (length win))) 0 0 (QFin 0)) with
+      | Ok m0 =>
+          let '(_, mo) := fold_left (fun '(s, out) x => match next XQOps s x with Some (Ok (s', o)) => (s', o) | _ => (s, out) end)
+                                    tps (m0, []) in
+          match mo with
+          | [QFin mad] =>
+              if Qle_bool mad 0%Q then true else
+              let c := (M / ((3 # 200) * mad))%Q in
+              if Qle_bool c 1000000%Q then within i e (tau t * c * (200 # 3))%Q else true
+          | _ => true end
+      | _ => true end
+  | _, _, _, _ => tol_window k mult t M impl exact
+  end.
 
 Definition gmag (i : ginput) : Q :=
   match i with GX x => qabs_of (f2xq x)
@@ -123,7 +155,7 @@ Definition hash_chunks (h : int) : list float :=
 
 (* 0 = ok; 1000000+j: checkpoint j differs bit-wise (T1); 2000000: hash of all outputs differs (T1);
    3000000+j: checkpoint j leaves the tolerance of the from-scratch exact value (T2); 4000000: model panicked *)
-Definition check_gen (tol : Kind -> XQ -> N -> Q -> list XQ -> list XQ -> bool) (c : gcase) : N :=
+Definition check_gen (tol : Kind -> XQ -> N -> Q -> list XQ -> list XQ -> option (@St XQ) -> list ginput -> bool) (c : gcase) : N :=
   match new FOps (gc_kind c) (gc_params c) with
   | Ok s0 =>
       let g := gc_gen c in
@@ -134,16 +166,20 @@ Definition check_gen (tol : Kind -> XQ -> N -> Q -> list XQ -> list XQ -> bool) 
                    | [], [] => 0%N
                    | (k, o, _) :: a, (k', o') :: b => if (k =? k')%N && beq_list o o' then go (j + 1)%N a b else (1000000 + j)%N
                    | _, _ => (1000000 + j)%N end) 1%N cps (gc_exp c) in
-      if negb (t1 =? 0)%N then t1 else
-      if negb (feq_list (hash_chunks h) (gc_hash c)) then 2000000%N else
+      let t1' := if negb (t1 =? 0)%N then t1 else
+                 if negb (feq_list (hash_chunks h) (gc_hash c)) then 2000000%N else 0%N in
+      (* T2 is evaluated on the implementation's checkpoint outputs whether or not T1 holds: a failure is a concrete
+         violation of the property (result = T1 code + 10^8 * T2 code) *)
+      let t2 :=
       (fix go (j : N) (a : list (N * list float * list ginput)) (b : list (N * list float)) : N :=
          match a, b with
          | (k, _, win) :: a, (_, impl) :: b =>
-             let exact := exact_on_window (gc_kind c) (gc_params c) win in
+             let '(est, exact) := exact_on_window (gc_kind c) (gc_params c) win in
              let M := qabs_of (f2xq (gc_mag c)) in
-             if tol (gc_kind c) (f2xq (pm (gc_params c))) k M (map f2xq impl) exact
+             if tol (gc_kind c) (f2xq (pm (gc_params c))) k M (map f2xq impl) exact est win
              then go (j + 1)%N a b else (3000000 + j)%N
-         | _, _ => 0%N end) 1%N cps (gc_exp c)
+         | _, _ => 0%N end) 1%N cps (gc_exp c) in
+      (t1' + 100000000 * t2)%N
   | _ => 4000000%N end.
 
-Definition check_gen_window := check_gen tol_window.
+Definition check_gen_window := check_gen (tol_gen 1000%Q).
